@@ -262,22 +262,26 @@ func handleLRem(params internal.HandlerFuncParams) ([]byte, error) {
 	switch {
 	default:
 		// Count is zero, remove all instances of the element from the list.
-		for i := 0; i < len(list); i++ {
+		for i := 0; i < len(list); {
 			if list[i] == value {
 				list = append(list[:i], list[i+1:]...)
 				absoluteCount += 1
+				continue
 			}
+			i++
 		}
 	case count > 0:
 		// Start from the head
-		for i := 0; i < len(list); i++ {
+		for i := 0; i < len(list); {
 			if absoluteCount == 0 {
 				break
 			}
 			if list[i] == value {
 				list = append(list[:i], list[i+1:]...)
 				absoluteCount -= 1
+				continue
 			}
+			i++
 		}
 	case count < 0:
 		// Start from the tail
